@@ -70,6 +70,7 @@ type SpecClause struct {
 // directive: one ensures clause per field of the struct type, generated from
 // go/types of the current working tree ($f = field name).
 type EachTemplate struct {
+	Agg    bool
 	Type   string
 	Kinds  []string
 	Except map[string]bool
@@ -133,6 +134,7 @@ type TypeInv struct {
 
 type SpecDB struct {
 	fieldsets map[string][]string // struct type key -> fields with a set view
+	imagesets map[string][]string // struct type key -> pure methods with a set view
 	typeinvs []*TypeInv
 	funcs    map[string]*FuncSpec
 	preds    map[string]*PredSpec
@@ -146,7 +148,7 @@ type SpecDB struct {
 }
 
 func newSpecDB() *SpecDB {
-	return &SpecDB{fieldsets: map[string][]string{}, funcs: map[string]*FuncSpec{}, preds: map[string]*PredSpec{}, globals: map[string]*GlobalDecl{},
+	return &SpecDB{imagesets: map[string][]string{}, fieldsets: map[string][]string{}, funcs: map[string]*FuncSpec{}, preds: map[string]*PredSpec{}, globals: map[string]*GlobalDecl{},
 		ifaces: map[string]*FuncSpec{}, ftypes: map[string]*FuncSpec{}, expect: map[string]int{}, source: map[string]string{}}
 }
 
@@ -204,9 +206,9 @@ func (db *SpecDB) funcTypeSpec(t types.Type) *FuncSpec {
 
 // ---- file parsing ----
 
-var clauseKw = map[string]bool{"ensures-each": true, "requires": true, "ensures": true, "assigns": true, "invariant": true, "decreases": true,
+var clauseKw = map[string]bool{"ensures-agg": true, "ensures-each": true, "requires": true, "ensures": true, "assigns": true, "invariant": true, "decreases": true,
 	"owns": true, "trusted": true, "inline": true, "pure": true, "holds": true, "props": true, "params": true}
-var declKw = map[string]bool{"fieldset-of": true, "typeinv": true, "func": true, "pred": true, "lemma": true, "global": true, "interface": true, "type": true, "expect-obligations": true, "table": true}
+var declKw = map[string]bool{"imageset-of": true, "fieldset-of": true, "typeinv": true, "func": true, "pred": true, "lemma": true, "global": true, "interface": true, "type": true, "expect-obligations": true, "table": true}
 
 type rawClause struct {
 	kw   string
@@ -392,6 +394,16 @@ func (db *SpecDB) parseFile(file, src string) error {
 				db.expect["prop:"+parts[0]] += n
 			}
 			cur = nil
+		case "imageset-of":
+			colon := strings.Index(r.text, ":")
+			if colon < 0 {
+				return fail(fmt.Errorf("imageset-of Type: methods"))
+			}
+			tk := strings.TrimSpace(r.text[:colon])
+			for _, m := range strings.Split(r.text[colon+1:], ",") {
+				db.imagesets[tk] = append(db.imagesets[tk], strings.TrimSpace(m))
+			}
+			cur = nil
 		case "fieldset-of":
 			// fieldset-of sbom.Node: Id, Name
 			colon := strings.Index(r.text, ":")
@@ -422,6 +434,22 @@ func (db *SpecDB) parseFile(file, src string) error {
 			}
 			cl := &SpecClause{Kind: r.kw, Text: r.text, File: file, Line: r.line, Loop: -1}
 			switch r.kw {
+			case "ensures-agg":
+				// Type: [label] text with $SUM[kinds]{tmpl} / $AND[kinds]{tmpl} macros
+				colon := strings.Index(r.text, ":")
+				if colon < 0 {
+					return fail(fmt.Errorf("ensures-agg Type: [label] text"))
+				}
+				et := &EachTemplate{Type: strings.TrimSpace(r.text[:colon]), Agg: true, File: file, Line: r.line, Except: map[string]bool{}}
+				body := strings.TrimSpace(r.text[colon+1:])
+				if strings.HasPrefix(body, "[") {
+					if e := strings.Index(body, "]"); e > 0 {
+						et.Label = body[1:e]
+						body = strings.TrimSpace(body[e+1:])
+					}
+				}
+				et.Text = body
+				cur.Each = append(cur.Each, et)
 			case "ensures-each":
 				// Type[kind,kind] [except a,b]: [label] template
 				colon := strings.Index(r.text, ":")
@@ -1024,6 +1052,9 @@ func fieldKind(t types.Type) string {
 			return "int"
 		}
 	case *types.Slice:
+		if _, ok := u.Elem().Underlying().(*types.Pointer); ok {
+			return "ptrslice"
+		}
 		return "slice"
 	case *types.Map:
 		return "map"
@@ -1054,6 +1085,18 @@ func (db *SpecDB) expandTemplates(eng *Engine) error {
 			st, ok := o.Type().Underlying().(*types.Struct)
 			if !ok {
 				return fmt.Errorf("%s:%d: %s is not a struct", et.File, et.Line, et.Type)
+			}
+			if et.Agg {
+				text, err := expandAggMacros(et.Text, st)
+				if err != nil {
+					return fmt.Errorf("%s:%d: %v", et.File, et.Line, err)
+				}
+				e, err := parseExpr(text)
+				if err != nil {
+					return fmt.Errorf("%s:%d: %s: %v", et.File, et.Line, text, err)
+				}
+				fs.Ensures = append(fs.Ensures, &SpecClause{Kind: "ensures", Text: et.Text, Expr: e, Label: et.Label, File: et.File, Line: et.Line, Loop: -1})
+				continue
 			}
 			n := 0
 			for i := 0; i < st.NumFields(); i++ {
@@ -1087,4 +1130,60 @@ func (db *SpecDB) expandTemplates(eng *Engine) error {
 		fs.Each = nil
 	}
 	return nil
+}
+
+// expandAggMacros expands $SUM[kinds]{tmpl} and $AND[kinds]{tmpl} over the
+// fields of st whose kind is listed ($f = field name).
+func expandAggMacros(text string, st *types.Struct) (string, error) {
+	for {
+		i := strings.Index(text, "$SUM[")
+		op, unit := " + ", "0"
+		j := strings.Index(text, "$AND[")
+		if i < 0 || (j >= 0 && j < i) {
+			i, op, unit = j, " && ", "true"
+		}
+		if i < 0 {
+			return text, nil
+		}
+		rb := strings.Index(text[i:], "]")
+		if rb < 0 || i+rb+1 >= len(text) || text[i+rb+1] != '{' {
+			return "", fmt.Errorf("malformed macro in %q", text)
+		}
+		kinds := strings.Split(text[i+5:i+rb], ",")
+		// matching brace
+		depth, end := 0, -1
+		for k := i + rb + 1; k < len(text); k++ {
+			if text[k] == '{' {
+				depth++
+			} else if text[k] == '}' {
+				depth--
+				if depth == 0 {
+					end = k
+					break
+				}
+			}
+		}
+		if end < 0 {
+			return "", fmt.Errorf("unbalanced macro in %q", text)
+		}
+		tmpl := text[i+rb+2 : end]
+		var parts []string
+		for fi := 0; fi < st.NumFields(); fi++ {
+			f := st.Field(fi)
+			if isProtoInternalField(f) {
+				continue
+			}
+			k := fieldKind(f.Type())
+			for _, want := range kinds {
+				if strings.TrimSpace(want) == k {
+					parts = append(parts, "("+strings.ReplaceAll(tmpl, "$f", f.Name())+")")
+				}
+			}
+		}
+		rep := unit
+		if len(parts) > 0 {
+			rep = "(" + strings.Join(parts, op) + ")"
+		}
+		text = text[:i] + rep + text[end+1:]
+	}
 }
